@@ -11,6 +11,10 @@ def main(tier, seed):
     t0 = time.time()
     ws = [2, [3, 4, 8][seed % 3]] if tier == 'quick' else [2, 3, 4, 8]
     items = fam_ops.write_family(seed, tier, ws)
+    # the routines have internal branches (sign, digit loop, string loop): inside a try that later defeats, a Turing jump must
+    # not be able to take the other side of one of them
+    from hv import fam_tt
+    items += fam_tt.template_family(seed, tier, only=[t for t in fam_tt.TEMPLATES if t[0] == 'library_calls_then_defeat'])
     return rt.standard(PROP, tier, seed, items,
                        'write(int): W=2 every value in [-1100,1100], powers of ten +-1, extremes, seeded randoms (thorough: all '
                        '65536); boundary/random values at other word sizes; write(bool); write(byte) all 256; strings and byte '
